@@ -61,7 +61,7 @@ def select_units(reg, prop):
                 props |= l.props
                 for cl in l.invariants:
                     props |= cl.props
-        if prop in props or prop == "ALL":
+        if prop in props or prop == "ALL" or prop == "C14":      # C14: the write-frame obligations of every function under contract
             for N in c.N:
                 out.append((q, N))
     return out
@@ -174,9 +174,21 @@ def check_property(prop, tier, seed, learn=False):
         replays.append(path)
         status = max(status, 1) if status != 3 else 3
     if undecided and status == 0:
-        status = 2
-        for x in undecided:
-            lines.append("UNDECIDED property=%s %s" % (prop, x))
+        # the contracts of these functions could not be checked (code left the supported subset).  The same contract clauses
+        # are still evaluated at run time on the real code: a failing history found there is a replayed violation.
+        from . import replay
+        groups = {"undecided:" + x.split(":")[0]: [{"detail": x}] for x in undecided}
+        path, found = replay.make_replay(prop, groups, tier, seed)
+        if found:
+            viol = len(groups)
+            lines.append("VIOLATION property=%s replay=%s" % (prop, path))
+            for x in undecided:
+                lines.append("  contract not checkable statically (%s); violated at run time, see replay" % x)
+            status = 1
+        else:
+            status = 2
+            for x in undecided:
+                lines.append("UNDECIDED property=%s %s" % (prop, x))
     ev = {
         "property_id": prop, "tier": tier, "seed": seed, "level": "proof",
         "coverage": {
